@@ -371,8 +371,17 @@ func (db *ContractDB) LoadFile(path string, raw bool) error {
 		case "ghost":
 			// ghost field T.name type
 			f := strings.Fields(l.rest)
+			if len(f) >= 3 && f[0] == "global" {
+				ty, err := parseTypeStr(strings.Join(f[2:], " "))
+				if err != nil {
+					db.errf(l, "bad ghost global: %v", err)
+					continue
+				}
+				db.Ghosts["$g."+f[1]] = &GhostField{Pkg: pkg, Struct: "", Name: f[1], Typ: ty}
+				continue
+			}
 			if len(f) < 3 || f[0] != "field" {
-				db.errf(l, "expected: ghost field T.name type")
+				db.errf(l, "expected: ghost field T.name type | ghost global name type")
 				continue
 			}
 			parts := strings.SplitN(f[1], ".", 2)
